@@ -31,6 +31,33 @@ class _Lift(ast.NodeTransformer):
         return node
 
 
+def _concretising_module(real):
+    """library boundary (C-level type checks, e.g. `re`): symbolic strings / ints are concretised (forked) before the call --
+    sound and exhaustive on the bounded domains, possibly expensive."""
+    def conv(x):
+        if isinstance(x, strs.SStr):
+            return x.concretize()
+        if isinstance(x, (list, tuple)):
+            return type(x)(conv(y) for y in x)
+        return x
+    m = types.ModuleType(real.__name__)
+    for name in dir(real):
+        obj = getattr(real, name)
+        if isinstance(obj, types.FunctionType) or isinstance(obj, types.BuiltinFunctionType):
+            def mk(f):
+                def w(*a, **k):
+                    return f(*[conv(x) for x in a], **{kk: conv(v) for kk, v in k.items()})
+                w.__name__ = getattr(f, "__name__", "f")
+                return w
+            setattr(m, name, mk(obj))
+        else:
+            try:
+                setattr(m, name, obj)
+            except Exception:
+                pass
+    return m
+
+
 class NoMonitor(object):
     """stub of dsw.operation.Monitor: progress output has no effect on results (checked in C20)."""
 
@@ -73,9 +100,15 @@ def load(repo=None, patches=None, stubs=None, random_impl=None, real_monitor=Fal
     modobjs = {}
     real_import = builtins.__import__
 
+    boundary = {}
+
     def imp(name, globals=None, locals=None, fromlist=(), level=0):
         if name == "numpy":
             return npmod
+        if name in ("re", "fnmatch", "difflib"):
+            if name not in boundary:
+                boundary[name] = _concretising_module(real_import(name, globals, locals, fromlist, level))
+            return boundary[name]
         if name.startswith("dsw"):
             if name == "dsw":
                 pkg = types.ModuleType("dsw")
